@@ -30,6 +30,7 @@ package oggreader
 //@ modifies nothing
 
 //@ func (*OggReader).ParseNextPage
+//@ deadreturn 1
 //@ props C37
 //@ requires o != nil && o.stream != nil && o.checksumTable != nil
 //@ requires ghost(rdpos) < 1<<40 && ufint("streamlen") < 1<<40
@@ -83,6 +84,7 @@ package oggreader
 //@ modifies nothing
 
 //@ func parseVendorString
+//@ deadreturn 1
 //@ props C37
 //@ requires headerMagicLen == 8 && u32Size == 4 && minHeaderLen == 16 && len(payload) >= 16
 //@ ensures err == nil ==> 12 <= ret1 && ret1 <= len(payload) - 4
